@@ -1031,15 +1031,19 @@ def subterms(d):
 
 def leaves(d, acc=None):
     acc = set() if acc is None else acc
-    if isinstance(d, tuple):
+    if isinstance(d, tuple) and d and isinstance(d[0], str):
         if d[0] in ('param', 'const', 'undef', 'loop', 'fn'):
             acc.add(d)
-        elif d[0] == 'field' and isinstance(d[2], tuple) and d[2][0] == 'param':
+        elif d[0] == 'field' and isinstance(d[2], tuple) and d[2] and d[2][0] == 'param':
             acc.add(d)
         else:
             for x in d[1:]:
                 if isinstance(x, tuple):
                     leaves(x, acc)
+    elif isinstance(d, tuple):
+        for x in d:
+            if isinstance(x, tuple):
+                leaves(x, acc)
     return acc
 
 
